@@ -740,6 +740,48 @@ def rand_cexpr(rng, depth, max_modes):
     return ['concat', a, b]
 
 
+def mixed_int_exprs(rng, count):
+    """code expressions of depth 2-3 mixing a numpy-integer (or Python int) repetition with appending and
+    concatenation, in every order: (k * a) + b, b + (k * a), k * (a + b), ((k * a) + b) * c, (k * a) * c + b, ..."""
+    small = [['jw', 1], ['jw', 2], ['bk', 2], ['parity', 2], ['bk', 3], ['checksum', 3, False], ['checksum', 3, True],
+             ['w1seg'], ['checksum', 2, True], ['interleaved', 2], ['w1ba', 1]]
+    out = []
+    # the fixed core: every numpy flavour, left and right multiplication, followed by an append
+    for fl in ('i64', 'i32', 'int'):
+        for side in 'lr':
+            out.append(['add', ['mulint', ['jw', 2], (2, fl), side], ['jw', 2]])
+            out.append(['add', ['bk', 2], ['mulint', ['parity', 2], (2, fl), side]])
+    out.append(['add', ['add', ['mulint', ['jw', 1], (3, 'i64'), 'l'], ['w1seg']], ['mulint', ['bk', 2], (2, 'i32'), 'r']])
+    out.append(['mulint', ['add', ['mulint', ['jw', 1], (2, 'i64'), 'r'], ['parity', 2]], (2, 'i32'), 'l'])
+    out.append(['concat', ['add', ['mulint', ['jw', 2], (2, 'i64'), 'l'], ['jw', 2]], ['bk', 6]])
+    out.append(['add', ['concat', ['mulint', ['jw', 2], (2, 'i32'), 'r'], ['parity', 4]], ['bk', 2]])
+    out.append(['add', ['mulint', ['w1seg'], (2, 'i64'), 'l'], ['checksum', 3, False]])
+    while len(out) < count:
+        a, b, c = rng.choice(small), rng.choice(small), rng.choice(small)
+        k = (rng.choice([1, 2, 2, 3]), rng.choice(['i64', 'i32', 'int']))
+        side = rng.choice('lr')
+        shape = rng.randrange(6)
+        if shape == 0:
+            e = ['add', ['mulint', a, k, side], b]
+        elif shape == 1:
+            e = ['add', b, ['mulint', a, k, side]]
+        elif shape == 2:
+            e = ['mulint', ['add', a, b], k, side]
+        elif shape == 3:
+            e = ['add', ['add', ['mulint', a, k, side], b], c]
+        elif shape == 4:
+            inner = ['add', ['mulint', a, k, side], b]
+            nq = sizes(inner)[1]
+            e = ['concat', inner, rng.choice([['jw', nq], ['bk', nq], ['parity', nq]] if nq >= 2 else [['jw', nq]])]
+        else:
+            inner = ['mulint', a, k, side]
+            nq = sizes(inner)[1]
+            e = ['add', ['concat', inner, rng.choice([['bk', nq], ['parity', nq]] if nq >= 2 else [['jw', nq]])], b]
+        if sizes(e)[0] <= 9:
+            out.append(e)
+    return out
+
+
 SPECIAL_CODES = [
     # a concatenation whose outer decoder has a component without terms, concatenated again
     # (these left an int in the decoder before the fix a441cb87)
@@ -1353,6 +1395,45 @@ def check_hardening(ctx, stream):
     h_types(stream, 'BinaryPolynomial(list)', lambda: BP([(300, 257), (1000,), (2, 'one')]),
             [('numpy ints', lambda: BP([(I64(300), I32(257)), (I64(1000),), (I32(2), 'one')])),
              ('lists', lambda: BP([[300, 257], [1000], [2, 'one']])), ('tuple of tuples', lambda: BP(((257, 300), (1000,), ('one', 2))))])
+    # variable indices of any integer type are treated alike (numpy indices arise from shifts by numpy integers,
+    # e.g. appending to a code whose n_qubits is a numpy integer)
+    for ps in ('w0', 'w1 + 1', 'w0 w2 + w1', 'w0 + w1 + w2 w3 w4', 'w3', 'w0 w1'):
+        for K in (I64, I32):
+            for c in (0, 2, 255, 257):
+                def np_poly(ps=ps, K=K, c=c):
+                    p = BP(ps)
+                    p.shift(K(c))
+                    return p
+                def py_poly(ps=ps, c=c):
+                    p = BP(ps)
+                    p.shift(c)
+                    return p
+                def raw_poly(ps=ps, K=K, c=c):
+                    p = py_poly()
+                    p.terms = [tuple(f if isinstance(f, str) else K(f) for f in t) for t in p.terms]
+                    return p
+                nbits = c + 6
+                bits = [rng.randint(0, 1) for _ in range(nbits)]
+                for label, mk in (('shifted by %s(%d)' % (K.__name__, c), np_poly), ('%s indices in .terms' % K.__name__, raw_poly)):
+                    h_types(stream, 'extractor (index types)', lambda: extractor(py_poly()), [(label, lambda mk=mk: extractor(mk()))])
+                    h_types(stream, 'evaluate (index types)', lambda: int(py_poly().evaluate(bits)),
+                            [(label, lambda mk=mk: int(mk().evaluate(bits)))])
+                    h_types(stream, 'shift (index types)', lambda: (lambda q: (q.shift(3), q)[1])(py_poly()),
+                            [(label, lambda mk=mk: (lambda q: (q.shift(K(3)), q)[1])(mk()))])
+                    h_types(stream, 'arithmetic (index types)', lambda: [py_poly() + py_poly(), py_poly() * BP('w1 + w%d' % (c + 1)), py_poly() ** 2],
+                            [(label, lambda mk=mk: [mk() + py_poly(), mk() * BP('w1 + w%d' % (c + 1)), mk() ** 2])])
+                    for t in py_poly().terms:
+                        if len(t) > 1 and ONE not in t:
+                            h_types(stream, 'dissolve (index types)', lambda t=t: dissolve(t),
+                                    [(label, lambda t=t: dissolve(tuple(K(f) for f in t)))])
+    for mk in (lambda K: bc.jordan_wigner_code(2) * K(2) + bc.jordan_wigner_code(2), lambda K: K(2) * bc.parity_code(2) + bc.bravyi_kitaev_code(2),
+               lambda K: (bc.jordan_wigner_code(1) * K(3) + bc.weight_one_segment_code()) + bc.jordan_wigner_code(1)):
+        for opstr in ('5^ 1', '4^ 4', '3^ 0', '5^ 5', '4^ 5^ 4 5'):
+            H = FO(opstr)
+            h_types(stream, 'binary_code_transform (repetition factor types)', lambda: binary_code_transform(H, mk(int)),
+                    [('int64 factor', lambda: binary_code_transform(H, mk(I64))), ('int32 factor', lambda: binary_code_transform(H, mk(I32)))])
+            h_types(stream, 'make_parity_list (repetition factor types)', lambda: make_parity_list(mk(int)),
+                    [('int64 factor', lambda: make_parity_list(mk(I64))), ('int32 factor', lambda: make_parity_list(mk(I32)))])
     # coefficients: numpy.float64 / complex128 through the constructor, numpy scalars placed into .terms, numpy mode indices
     ncase = budget(ctx.tier, 6, 30)
     for _ in range(ncase):
@@ -1543,6 +1624,7 @@ def run(ctx):
         if e is not None:
             pool.append(e)
             nrand -= 1
+    pool += mixed_int_exprs(rng, budget(ctx.tier, 14, 60))
     for e in pool:
         try:
             inf = info(ctx.of, e)
@@ -1557,6 +1639,18 @@ def run(ctx):
             f = rand_fermion_op(rng, inf)
             if f:
                 cases.append((e, f))
+        if len(inf.segs) > 1:
+            # every block of an appended / repeated code is touched, alone and together with the last block
+            for seg in inf.segs:
+                f = {rand_term(rng, *seg): dyadic(rng, max_num=4, max_pow=2)}
+                cases.append((e, {t: c for t, c in f.items() if c != 0}))
+            lo, nseg, fl = inf.segs[-1]
+            m = lo + nseg - 1
+            cases.append((e, {((m, 1), (m, 0)): 1.0}))
+            if all(f_ == 'any' for _, _, f_ in inf.segs):
+                cases.append((e, {((m, 1), (inf.segs[0][0] + 1 if inf.segs[0][1] > 1 else 0, 0)): 1.0,
+                                  ((lo, 1), (0, 1), (m, 0), (0, 0)): 0.5j}))
+    cases = [c for c in cases if c[1]]
     check_transform(ctx, st, cases)
     check_large_transform(ctx, st)
     streams.append(st)
